@@ -26,6 +26,8 @@ theorem pages_compose (o : Nat) (p1 p2 : List Entry) :
     the row index advances by the records a page starts, and the MAP key leaf is found by its name -/
 theorem chain_by_started_records_now : PqV.Gen.Nested.chainByZeros = true := by decide
 theorem map_key_by_leaf_name_now : PqV.Gen.Nested.keyByLeafName = true := by decide
+/-- the translator recognised the statements these two facts are read from (it fails soft so that the driver keeps building) -/
+theorem nested_facts_recognised_now : PqV.Gen.Nested.recognised = true := by decide
 
 /-- **whole-row pages** (any number of pages, cut at row starts; both chaining rules): the model of
     `read_col` + `_assemble_objects` stores exactly the rows, in order. -/
